@@ -343,6 +343,39 @@ func genDecEntry(emit func(string), tier string, rng *Rng) {
 			both("definition-surgery", dapiOptString(rng), fac, dapiSeq(14, true, recs), 3)
 		}
 	}
+	// 4b. the longest records the protocol allows: 255 field definitions (and 255 developer field definitions) of 255 bytes —
+	// the raw decoder's fixed array is sized for exactly that (1 + 255·255 + 255·255 bytes); one byte less, complete and cut
+	for i := 0; i < 3*scale; i++ {
+		nf, nd := 255, []int{255, 254, 0}[i%3]
+		fsz := byte(255)
+		if i%3 == 1 {
+			fsz = 254
+		}
+		var fds, dds []dapiFD
+		for k := 0; k < nf; k++ {
+			fds = append(fds, dapiFD{byte(k), fsz, 0x0D})
+		}
+		for k := 0; k < nd; k++ {
+			dds = append(dds, dapiFD{byte(k), 255, 0})
+		}
+		var recs []byte
+		if nd > 0 {
+			recs = dapiDefRec(0, 0, 20, fds, dds)
+		} else {
+			recs = dapiDefRec(0, 0, 20, fds, nil)
+		}
+		recs = append(recs, 0)
+		recs = append(recs, rng.Bytes(nf*int(fsz)+nd*255)...)
+		if rng.Bool() {
+			recs = append(recs, 0)
+			recs = append(recs, rng.Bytes(rng.Intn(nf*int(fsz)))...) // a second record, cut short
+		}
+		b := dapiSeq(14, true, recs)
+		line("raw:-", "chk1,exp0,bo0,bc0,ml0,dl0,lw0,rbs0", "-", b)
+		line(fmt.Sprintf("raw:%d", rng.Intn(4)), "chk1,exp0,bo0,bc0,ml0,dl0,lw0,rbs0", "-", b)
+		line("lis:2:all", "chk1,exp0,bo0,bc0,ml0,dl0,lw0,rbs0", "-", b)
+		count("longest-records")
+	}
 	// 5. fixtures and encoder outputs through the standard factory (expansion off: see fam_decapi.go), whole and mutated
 	stdOpt := func() string { return strings.Replace(dapiOptString(rng), "exp1", "exp0", 1) }
 	for _, p := range fixtureFiles() {
